@@ -42,8 +42,9 @@ def _lerp(a, b, *, t, dtype, out=None):
     with np.errstate(invalid="ignore"):
         diff_b_a = np.subtract(b, a)
     # asanyarray is a stop-gap until gh-13105
-    np.add(a, diff_b_a * t, out=out)
-    np.subtract(b, diff_b_a * (1 - t), out=out, where=t >= 0.5)
+    # (`out` has the requested dtype, which may be an integer one: cast like the other engines do)
+    np.add(a, diff_b_a * t, out=out, casting="unsafe")
+    np.subtract(b, diff_b_a * (1 - t), out=out, where=t >= 0.5, casting="unsafe")
     return out
 
 
